@@ -628,7 +628,7 @@ fn file_descriptor(name: &[u8]) -> Vec<u8> {
     o
 }
 
-fn answer(req: &Fragment) -> Fragment {
+pub(crate) fn answer(req: &Fragment) -> Fragment {
     let mut r = Fragment {
         fir: true,
         fin: true,
